@@ -45,6 +45,8 @@ def run_driver(binary, test_name, paths_file, out_file, scratch, timeout=3600, e
     p = subprocess.run([binary, "-test.run", "^" + test_name + "$", "-test.count=1",
                         "-test.timeout", "%ds" % timeout], cwd=cwd or scratch, env=env,
                        stdout=subprocess.PIPE, stderr=subprocess.STDOUT, text=True)
+    if os.environ.get("VERIF_DRIVER_LOG"):
+        open(os.environ["VERIF_DRIVER_LOG"], "a").write(p.stdout)
     if p.returncode != 0 or not os.path.exists(out_file):
         raise core.MachineryError("driver failed rc=%d:\n%s" % (p.returncode, p.stdout[-6000:]))
     res = []
